@@ -54,7 +54,7 @@ def SenderOk (c : Cert) (nm t m : Nat) (th : Thread) : Prop :=
 def SinkOk (c : Cert) (nm t : Nat) (th : Thread) : Prop :=
   (c.src t).1 < nm ∧ c.reader (c.src t).1 (c.src t).2 = t ∧ (c.src t).2 ≠ c.pipe (c.src t).1 ∧
   (∀ i ∈ th.body, i = .read (c.src t).1 (c.src t).2 ∨ i.isFail = true ∨ i.isDie = true) ∧ dieOnlyLast th.body = true ∧
-  (th.epi = [.killIfOwn (c.src t).1] ∨ (th.epi = [] ∧ ∀ i ∈ th.body, i.isFail = false))
+  th.epi = [.killIfOwn (c.src t).1]
 
 /-- the consumer: `reads ++ epilogue`, epilogue = kill every mailbox, join every other thread, finish -/
 def MainOk (c : Cert) (nm n : Nat) (th : Thread) : Prop :=
